@@ -1,2 +1,270 @@
--- stub: replaced when the area is built
-def main : IO Unit := pure ()
+import Nstd.Common.Basic
+import Nstd.Rc.Model
+/-
+  Line protocol of the Rc area (property C09).
+
+  Single-threaded op lines (indices 0..3 inside each kind):
+    snew d hex | slit d hex | scopy d s | sassign d s | sclear d | sappend d hex | sreserve d n | sdel d
+    vcopy d s | vassign d s | vclear d | vseti d x | vsets d hex | vapp d hex | vpush d x | vswap a b
+    xcopy d s | xassign d s | xclear d | xsets d hex | xelem d hex
+    pnew d x | pcopy d s | passign d s | pclear d | pswap a b
+    end                      (destroy every handle)
+  Observation after every op:
+    `<16 handle tokens> | <payload table> | live=<n> bad=<n>`
+    handle token: `n` (static empty/null descriptor), `i<tag>.<hex>` (inline value), `b<pid>`
+    payload table (payload ids in order of first designation by a handle):
+       `<pid>:L:<ref>:<tag>:<hex>` live, `<pid>:F` released once, `<pid>:X<k>` released k>1 times
+
+  Multi-threaded lines:
+    hooks 0|1                whether the plain counter reads / in-place writes are scheduling points
+    give <slot> <tid>        hand variable slot (0..15) to thread tid (1..3)
+    prog <tid> <op line>     append an API call to the program of thread tid
+    run <tid> <tid> ...      the schedule: each entry lets that thread perform its pending
+                             scheduling-point step and run on to its next scheduling point
+                             (threads that are not finished when the schedule ends are run to
+                             completion in thread order)
+  Output of `run`: `<trace> # <observation>` with one trace token per executed scheduling-point
+  step: `<tid>.inc.<new ref>`, `<tid>.dec.<new ref>`, `<tid>.ref.<value read>`, `<tid>.wr`.
+-/
+open Nstd.Common
+namespace Nstd.Rc
+
+structure Thr where
+  prog : List ApiOp := []       -- API calls not yet started
+  acts : List Act := []         -- remaining steps of the current phase
+  inPre : Option ApiOp := none  -- call whose `pre` phase is running (its `post` is still to be computed)
+  started : Bool := false
+
+structure DSt where
+  st : St
+  seen : List Nat               -- block ids in order of first designation
+  hooks : Bool
+  thr : List Thr                -- threads 0..3 (0 unused in `run`)
+  bad : Bool := false
+
+def init0 : DSt := { st := init nSlots, seen := [], hooks := false, thr := List.replicate nThreads {} }
+
+def idxOf (l : List Nat) (x : Nat) : Option Nat :=
+  let rec go (l : List Nat) (i : Nat) : Option Nat :=
+    match l with
+    | [] => none
+    | y :: r => if y = x then some i else go r (i + 1)
+  go l 0
+
+def scanSeen (st : St) (seen : List Nat) : List Nat :=
+  (List.range nVars).foldl (fun acc v =>
+    match st.slots v with
+    | .blk b => if acc.contains b then acc else acc ++ [b]
+    | _ => acc) seen
+
+def handleTok (st : St) (seen : List Nat) (v : Nat) : String :=
+  match st.slots v with
+  | .none => "n"
+  | .inl tag val => s!"i{tag}.{toHex val}"
+  | .blk b => match idxOf seen b with
+    | some i => s!"b{i}"
+    | none => "b?"
+
+def payloadTok (st : St) (i b : Nat) : String :=
+  match st.heap b with
+  | some blk => if st.freed b = 0 then s!"{i}:L:{blk.ref}:{blk.tag}:{toHex blk.val}" else s!"{i}:X{st.freed b}"
+  | none => if st.freed b = 1 then s!"{i}:F" else s!"{i}:X{st.freed b}"
+
+def liveCount (st : St) : Nat := ((List.range st.next).filter (fun b => (st.heap b).isSome)).length
+
+def obs (d : DSt) : String :=
+  let hs := " ".intercalate ((List.range nVars).map (handleTok d.st d.seen))
+  let ps := " ".intercalate ((List.range d.seen.length).map (fun i => payloadTok d.st i (d.seen.getD i 0)))
+  s!"{hs} | {if ps.isEmpty then "-" else ps} | live={liveCount d.st} bad={d.st.viol}"
+
+def kindBase (k : Nat) : Nat := 4 * k
+
+def idx (k : Nat) (t : String) : Option Nat := do
+  let i ← t.toNat?
+  if i < 4 then pure (kindBase k + i) else none
+
+def num (t : String) : Option Nat := do
+  let i ← t.toNat?
+  if i < 256 then pure i else none
+
+def parseOp (ws : List String) : Option ApiOp :=
+  match ws with
+  | ["snew", d, h] => do pure (.sNew (← idx 0 d) (← fromHex h))
+  | ["slit", d, h] => do pure (.sLit (← idx 0 d) (← fromHex h))
+  | ["scopy", d, s] => do pure (.sCopy (← idx 0 d) (← idx 0 s))
+  | ["sassign", d, s] => do pure (.sAssign (← idx 0 d) (← idx 0 s))
+  | ["sclear", d] => do pure (.sClear (← idx 0 d))
+  | ["sappend", d, h] => do pure (.sAppend (← idx 0 d) (← fromHex h))
+  | ["sreserve", d, n] => do pure (.sReserve (← idx 0 d) (← num n))
+  | ["sdel", d] => do pure (.sDel (← idx 0 d))
+  | ["vcopy", d, s] => do pure (.vCopy (← idx 1 d) (← idx 1 s))
+  | ["vassign", d, s] => do pure (.vAssign (← idx 1 d) (← idx 1 s))
+  | ["vclear", d] => do pure (.vClear (← idx 1 d))
+  | ["vseti", d, x] => do pure (.vSetInt (← idx 1 d) (← num x))
+  | ["vsets", d, h] => do pure (.vSetStr (← idx 1 d) (← fromHex h))
+  | ["vapp", d, h] => do pure (.vAppStr (← idx 1 d) (← fromHex h))
+  | ["vpush", d, x] => do pure (.vPush (← idx 1 d) (← num x))
+  | ["vswap", a, b] => do pure (.vSwap (← idx 1 a) (← idx 1 b))
+  | ["xcopy", d, s] => do pure (.xCopy (← idx 2 d) (← idx 2 s))
+  | ["xassign", d, s] => do pure (.xAssign (← idx 2 d) (← idx 2 s))
+  | ["xclear", d] => do pure (.xClear (← idx 2 d))
+  | ["xsets", d, h] => do pure (.xSetStr (← idx 2 d) (← fromHex h))
+  | ["xelem", d, h] => do pure (.xElem (← idx 2 d) (← fromHex h))
+  | ["pnew", d, x] => do pure (.pNew (← idx 3 d) (← num x))
+  | ["pcopy", d, s] => do pure (.pCopy (← idx 3 d) (← idx 3 s))
+  | ["passign", d, s] => do pure (.pAssign (← idx 3 d) (← idx 3 s))
+  | ["pclear", d] => do pure (.pClear (← idx 3 d))
+  | ["pswap", a, b] => do pure (.pSwap (← idx 3 a) (← idx 3 b))
+  | _ => none
+
+/-! ### controlled interleaving -/
+
+def isSync (hooks : Bool) : Act → Bool
+  | .inc .. => true        -- only counted increments are scheduling points; see `syncNow`
+  | .dec .. => true
+  | .readRef .. => hooks
+  | .write .. => hooks
+  | _ => false
+
+/-- an `inc`/`dec`/`readRef` on a slot that does not hold a counted block performs no atomic
+    operation in the C++ code, a `write` that is skipped neither -/
+def syncNow (hooks : Bool) (st : St) (tid : Nat) (a : Act) : Bool :=
+  match a with
+  | .inc _ src => (st.slots src).isBlk
+  | .dec t => (st.slots t).isBlk
+  | .readRef t _ => hooks && (st.slots t).isBlk
+  | .write _ => hooks && isWriting st tid
+  | _ => false
+
+def traceTok (before after : St) (tid : Nat) (a : Act) : String :=
+  let refOf (s : St) (v : Nat) : String :=
+    match before.slots v with
+    | .blk b => match s.heap b with | some blk => toString blk.ref | none => "?"
+    | _ => "-"
+  match a with
+  | .inc _ src => s!"{tid}.inc.{refOf after src}"
+  | .dec t => s!"{tid}.dec.{refOf after t}"
+  | .readRef t _ => s!"{tid}.ref.{refOf before t}"
+  | .write _ => s!"{tid}.wr"
+  | _ => s!"{tid}.?"
+
+/-- make sure thread `tid` has a non-empty step list if it has work left -/
+partial def refill (d : DSt) (tid : Nat) : DSt :=
+  let t := d.thr.getD tid {}
+  if !t.acts.isEmpty then d
+  else match t.inPre with
+    | some op =>
+      let t' := { t with acts := post d.st tid op, inPre := none }
+      refill { d with thr := d.thr.set tid t' } tid
+    | none => match t.prog with
+      | [] => d
+      | op :: r =>
+        let t' := { t with acts := pre d.st tid op, inPre := some op, prog := r }
+        refill { d with thr := d.thr.set tid t' } tid
+
+def finished (d : DSt) (tid : Nat) : Bool :=
+  let d' := refill d tid
+  ((d'.thr.getD tid {}).acts).isEmpty
+
+/-- run the non-scheduling-point steps of thread tid until it reaches a scheduling point or ends -/
+partial def runLocal (d : DSt) (tid : Nat) : DSt :=
+  let d := refill d tid
+  let t := d.thr.getD tid {}
+  match t.acts with
+  | [] => d
+  | a :: r =>
+    if syncNow d.hooks d.st tid a then d
+    else match astep d.st tid a with
+      | some s' => runLocal { d with st := s', thr := d.thr.set tid { t with acts := r } } tid
+      | none => { d with bad := true, thr := d.thr.set tid { t with acts := [], prog := [], inPre := none } }
+
+/-- one schedule entry: thread tid performs its pending scheduling-point step, then runs on -/
+partial def grant (d : DSt) (tid : Nat) : DSt × String :=
+  let t := d.thr.getD tid {}
+  if !t.started then
+    (runLocal { d with thr := d.thr.set tid { t with started := true } } tid, s!"{tid}.start")
+  else
+    let d := refill d tid
+    let t := d.thr.getD tid {}
+    match t.acts with
+    | [] => (d, s!"{tid}.idle")
+    | a :: r =>
+      match astep d.st tid a with
+      | some s' =>
+        let tok := traceTok d.st s' tid a
+        (runLocal { d with st := s', thr := d.thr.set tid { t with acts := r } } tid, tok)
+      | none => ({ d with bad := true }, s!"{tid}.bad")
+
+def runSchedule (d : DSt) (sched : List Nat) : DSt × List String :=
+  let (d, toks) := sched.foldl (fun (acc : DSt × List String) tid =>
+      let (d', tok) := grant acc.1 tid
+      (d', tok :: acc.2)) (d, [])
+  (d, toks.reverse)
+
+/-- threads not finished at the end of the schedule run to completion in thread order -/
+partial def drain (d : DSt) (tid : Nat) (toks : List String) : DSt × List String :=
+  if tid ≥ nThreads then (d, toks)
+  else if finished d tid && (d.thr.getD tid {}).started then drain d (tid + 1) toks
+  else if (d.thr.getD tid {}).prog.isEmpty && (d.thr.getD tid {}).acts.isEmpty && (d.thr.getD tid {}).inPre.isNone then
+    drain d (tid + 1) toks
+  else
+    let (d', tok) := grant d tid
+    if d'.bad then (d', toks ++ [tok]) else drain d' tid (toks ++ [tok])
+
+/-- hand slot v to thread tid (a step of its current owner) -/
+def giveTo (s : St) (v tid : Nat) : St :=
+  match astep s (s.owner v) (.give v tid) with
+  | some s' => s'
+  | none => s
+
+def stepLine (d : DSt) (ws : List String) : DSt × String :=
+  match ws with
+  | ["reset"] => (init0, obs init0)
+  | ["end"] =>
+    let s0 := (List.range nSlots).foldl (fun s v => giveTo s v 0) d.st
+    match runT s0 0 ((List.range nVars).flatMap rel) with
+    | some s' => let d' := { d with st := s' }; (d', s!"end live={liveCount s'} bad={s'.viol}")
+    | none => (d, "bad-op")
+  | ["hooks", h] => ({ d with hooks := h == "1" }, "ok")
+  | ["give", v, tid] =>
+    match v.toNat?, tid.toNat? with
+    | some v, some tid =>
+      if v < nVars ∧ tid < nThreads then
+        -- the variable and the scratch slots of that thread
+        let s' := giveTo (giveTo (giveTo d.st v tid) (tmpU tid) tid) (tmpT tid) tid
+        ({ d with st := s' }, "ok")
+      else (d, "bad-op")
+    | _, _ => (d, "bad-op")
+  | "prog" :: tid :: rest =>
+    match tid.toNat?, parseOp rest with
+    | some tid, some op =>
+      if 0 < tid ∧ tid < nThreads then
+        let t := d.thr.getD tid {}
+        ({ d with thr := d.thr.set tid { t with prog := t.prog ++ [op] } }, "ok")
+      else (d, "bad-op")
+    | _, _ => (d, "bad-op")
+  | "run" :: sched =>
+    match sched.mapM (fun t => t.toNat?) with
+    | some sc =>
+      if sc.all (fun t => 0 < t ∧ t < nThreads) then
+        let (d1, toks) := runSchedule d sc
+        let (d2, toks) := drain d1 1 toks
+        if d2.bad then (d2, "bad-op")
+        else
+          let d3 := { d2 with seen := scanSeen d2.st d2.seen, thr := List.replicate nThreads {} }
+          (d3, " ".intercalate toks ++ " # " ++ obs d3)
+      else (d, "bad-op")
+    | none => (d, "bad-op")
+  | _ =>
+    match parseOp ws with
+    | none => (d, "bad-op")
+    | some op =>
+      match apiStep d.st 0 op with
+      | some s' =>
+        let d' := { d with st := s', seen := scanSeen s' d.seen }
+        (d', obs d')
+      | none => (d, "bad-op")
+
+end Nstd.Rc
+
+def main : IO Unit := Nstd.Common.ioLoop Nstd.Rc.init0 Nstd.Rc.stepLine
